@@ -29,6 +29,52 @@ func c18Size(e influxql.Expr) int {
 	return c.n
 }
 
+// c18Skeleton projects a condition to its boolean skeleton: AND / OR / parentheses as they
+// stand in the tree, boolean literals, and leaves read by the real code itself - a comparison
+// that ConditionExpr turns entirely into a time range becomes {"n":"time","lo","hi"} (symbolic
+// instants), any other leaf {"n":"nt","rt":[truth under EvalBool for the 8 valuations]}.
+// The judge evaluates the skeleton's plain boolean reading; nothing is compared here.
+func c18Skeleton(e influxql.Expr, m *c10Mapping) M {
+	switch x := e.(type) {
+	case *influxql.ParenExpr:
+		return M{"n": "par", "e": c18Skeleton(x.Expr, m)}
+	case *influxql.BooleanLiteral:
+		return M{"n": "bool", "b": x.Val}
+	case *influxql.BinaryExpr:
+		if x.Op == influxql.AND || x.Op == influxql.OR {
+			n := "and"
+			if x.Op == influxql.OR {
+				n = "or"
+			}
+			return M{"n": n, "l": c18Skeleton(x.LHS, m), "r": c18Skeleton(x.RHS, m)}
+		}
+	case nil:
+		return M{"n": "bool", "b": true}
+	}
+	var res influxql.Expr
+	var tr influxql.TimeRange
+	var err error
+	if p := guard(func() { res, tr, err = influxql.ConditionExpr(influxql.CloneExpr(e), &influxql.NowValuer{Now: m.now}) }); p != "" {
+		return M{"n": "bad", "why": "panic: " + p}
+	}
+	if err != nil {
+		return M{"n": "bad", "why": errStr(err)}
+	}
+	if res == nil {
+		return M{"n": "time", "lo": m.sym(tr.Min), "hi": m.sym(tr.Max)}
+	}
+	rt := make([]interface{}, 0, 8)
+	if p := guard(func() {
+		for _, val := range c10Valuations() {
+			ev := influxql.ValuerEval{Valuer: val}
+			rt = append(rt, ev.EvalBool(e))
+		}
+	}); p != "" {
+		return M{"n": "bad", "why": "panic: " + p}
+	}
+	return M{"n": "nt", "rt": rt}
+}
+
 func c18Instant(m *c10Mapping, v interface{}) time.Time {
 	o := obj(v)
 	return m.at(num(o["k"]), num(o["d"]))
@@ -83,6 +129,21 @@ func init() {
 			}
 			st["size"] = c18Size(sel.Condition)
 			c10Split(st, sel.Condition, m)
+			// the printed condition is an observation of the statement too (and what the next
+			// SetTimeRange call re-parses): skeleton of the tree and of its printed form parsed back
+			if sel.Condition != nil {
+				st["sk"] = c18Skeleton(sel.Condition, m)
+				var back influxql.Expr
+				var berr error
+				text := str(st["cond"])
+				if p := guard(func() { back, berr = influxql.ParseExpr(text) }); p != "" {
+					st["skp"] = M{"n": "bad", "why": "panic: " + p}
+				} else if berr != nil {
+					st["skp"] = M{"n": "bad", "why": "parse: " + errStr(berr)}
+				} else {
+					st["skp"] = c18Skeleton(back, m)
+				}
+			}
 			steps = append(steps, st)
 		}
 		o["steps"] = steps
